@@ -265,3 +265,46 @@ func VerifC06Conversation() {
 	vrt_Cover("unanswered-auth-in-between", nm >= 2 && sent[0].id == 0x0102 && c06ReplyKind(sent[1].id) != 0)
 	vrt_Cover("mixed", want < nm)
 }
+
+func init() {
+	vrtHarnesses["VerifC06SubPackage"] = VerifC06SubPackage
+}
+
+// VerifC06SubPackage: a sub-packaged message between two ordinary ones counts once, when complete:
+// one reply of its type, numbered in sequence, one read callback.
+func VerifC06SubPackage() {
+	vrt_ClockFrozen()
+	ev := &vRecorder{}
+	conn := vrt_NewTCPConn()
+	vrt_ConnLive(conn)
+	c := newConnection(conn, (&GoJT808{}).createDefaultHandle(), ev, true,
+		func(message *Message, activeChan chan<- *ActiveMessage) (string, error) {
+			return message.JTMessage.Header.TerminalPhoneNo, nil
+		}, func(key string) {})
+	go c.reader()
+	go c.write()
+	n := 2 + vrt_Choose("N", 2)
+	parts := c05Transfer("sp", 0x0801, n, 0)
+	hb1 := &vFrame{id: 0x0002, phone: parts[0].phone, serial: 100}
+	hb2 := &vFrame{id: 0x0002, phone: parts[0].phone, serial: 101}
+	vNoSpecialChecksum(hb1)
+	vNoSpecialChecksum(hb2)
+	vrt_ConnPushRead(conn, hb1.bytes())
+	order := c05Perms(n)[vrt_Choose("order", len(c05Perms(n)))]
+	for _, k := range order {
+		vrt_ConnPushRead(conn, parts[k-1].bytes())
+		if vrt_Choose("yield", 2) == 1 {
+			vrt_Yield()
+		}
+	}
+	vrt_ConnPushRead(conn, hb2.bytes())
+	vrt_Yield()
+	frames := c06Frames(vrt_ConnWritten(conn))
+	vrt_Assert(len(frames) == 3, "heartbeat, complete sub-packaged message, heartbeat must give exactly three replies")
+	c06Expect(frames[0], hb1, 0)
+	ok, rid, phone, serial, _ := c06Unframe(frames[1], false)
+	vrt_Assert(ok && rid == 0x8800 && serial == 1 && vrt_BytesEq(phone, parts[0].phone), "the complete sub-packaged 0x0801 must be answered once with 0x8800 and the next platform serial")
+	c06Expect(frames[2], hb2, 2)
+	vrt_Assert(len(ev.reads) == 3 && ev.writes == 3, "a sub-packaged message must be reported to the callbacks once, when complete")
+	vrt_Cover("out-of-order-packets", n == 3 && order[1] == 3)
+}
